@@ -248,9 +248,9 @@ func c18Exec(t *testing.T, p *Plan, pairs []c18Pair, faults map[string]string) (
 		ld.Branches[0] = tree
 		stub := &tileStub{tree: tree, origin: ld.Origin, key: ld.Key, world: w, keyIdx: ld.KeyIdx, kind: "sumdb"}
 		sn := NewSimNet()
-		sn.Hosts["sum.example"] = stub
+		sn.Hosts["sum.example"] = underPrefix(p.Cfg.Notes["url_prefix"], stub)
 		hc := &http.Client{Transport: sn, Timeout: 10 * time.Second}
-		cl, err := config.NewLog(ld.Origin, ld.Key.VerifierString(), "http://sum.example")
+		cl, err := config.NewLog(ld.Origin, ld.Key.VerifierString(), "http://sum.example"+p.Cfg.Notes["url_prefix"])
 		if err != nil {
 			infra = err.Error()
 			return
@@ -399,9 +399,9 @@ func c18Grow(t *testing.T, p *Plan, sizes []uint64) (viol []Violation, infra str
 		ld.Branches[0] = tree
 		stub := &tileStub{tree: tree, origin: ld.Origin, key: ld.Key, world: w, keyIdx: ld.KeyIdx, kind: "sumdb", size: sizes[0]}
 		sn := NewSimNet()
-		sn.Hosts["sum.example"] = stub
+		sn.Hosts["sum.example"] = underPrefix(p.Cfg.Notes["url_prefix"], stub)
 		hc := &http.Client{Transport: sn, Timeout: 10 * time.Second}
-		cl, err := config.NewLog(ld.Origin, ld.Key.VerifierString(), "http://sum.example")
+		cl, err := config.NewLog(ld.Origin, ld.Key.VerifierString(), "http://sum.example"+p.Cfg.Notes["url_prefix"])
 		if err != nil {
 			infra = err.Error()
 			return
@@ -463,6 +463,26 @@ func c18Grow(t *testing.T, p *Plan, sizes []uint64) (viol []Violation, infra str
 	return
 }
 
+// underPrefix serves h under a path prefix (a checksum database hosted below a path, e.g. behind a module proxy:
+// https://proxy.example/sumdb/<name>); requests that do not carry the prefix get 404.
+func underPrefix(prefix string, h http.Handler) http.Handler {
+	if prefix == "" {
+		return h
+	}
+	return http.HandlerFunc(func(rw http.ResponseWriter, rq *http.Request) {
+		if !strings.HasPrefix(rq.URL.Path, prefix+"/") {
+			http.NotFound(rw, rq)
+			return
+		}
+		q := rq.Clone(rq.Context())
+		u := *rq.URL
+		u.Path = strings.TrimPrefix(rq.URL.Path, prefix)
+		u.RawPath = ""
+		q.URL = &u
+		h.ServeHTTP(rw, q)
+	})
+}
+
 func c18Paths(t *testing.T, p *Plan) (viol []Violation, infra string, st Stats, evals int) {
 	st = newStats()
 	w := NewWorld(p)
@@ -473,7 +493,7 @@ func c18Paths(t *testing.T, p *Plan) (viol []Violation, infra string, st Stats, 
 	if err != nil {
 		return nil, err.Error(), st, 0
 	}
-	c := client.NewSumDB(8, v, "http://sum.example", &http.Client{Transport: sn})
+	c := client.NewSumDB(8, v, "http://sum.example"+p.Cfg.Notes["url_prefix"], &http.Client{Transport: sn})
 	r := NewRng(p.Seed ^ 0x7117)
 	carries := []int64{0, 1, 9, 10, 99, 100, 255, 256, 999, 1000, 1001, 9999, 10000, 99999, 100000, 999999, 1000000, 1000001, 999999999, 1000000000}
 	for i := 0; i < 400; i++ {
@@ -517,8 +537,9 @@ func c18Paths(t *testing.T, p *Plan) (viol []Violation, infra string, st Stats, 
 			viol = append(viol, Violation{Class: "tile_path_mismatch", Sig: "tile_path_mismatch/no_request", Detail: fmt.Sprintf("tile L=%d N=%d W=%d: err=%v requests=%d", level, n, width, err, len(reqs)-before)})
 			return
 		}
-		got := strings.TrimPrefix(reqs[len(reqs)-1].Path, "/")
-		if ref := tilePathRef(8, level, n, width); ref != want {
+		got := reqs[len(reqs)-1].Path
+		want = p.Cfg.Notes["url_prefix"] + "/" + want
+		if ref := p.Cfg.Notes["url_prefix"] + "/" + tilePathRef(8, level, n, width); ref != want {
 			infra = fmt.Sprintf("harness tile path %q disagrees with tlog.Tile.Path %q", ref, want)
 			return
 		}
@@ -546,6 +567,9 @@ func init() {
 			p := &Plan{Scenario: "sumdb"}
 			p.Cfg = Config{Store: "mem", Dense: 2048, WitKeys: []string{"cosig:0"}, Logs: []LogCfg{{Origin: "go.sum database tree", Key: 0}},
 				Extra: map[string]int64{"treeseed": 7}, Notes: map[string]string{}}
+			if r.Chance(0.3) {
+				p.Cfg.Notes["url_prefix"] = Pick(r, "/sumdb/sum.example", "/mirror/v1/db", "/x") // the database lives below a path of its host
+			}
 			bound := []uint64{1, 2, 3, 255, 256, 257, 511, 512, 513, 1023, 1024, 65535, 65536, 65537, 1 << 17, 1<<20 - 1, 1 << 20}
 			pick := func() uint64 {
 				switch r.IntN(4) {
